@@ -20,6 +20,9 @@ pub uninterp spec fn fresh<T>(p: GcPtr<T>) -> bool;
 impl<T> GcPtr<T> {
     #[verifier::external_body]
     pub fn generation(&self) -> (r: Generation) ensures r == ptr_gen(*self) { unimplemented!() }
+    // R-gc: copies the pointer (the SAME object), rooting not modelled
+    #[verifier::external_body]
+    pub fn clone_unrooted(&self) -> (r: GcPtr<T>) ensures r == *self { unimplemented!() }
 }
 #[verifier::external_body] pub struct StrData { _p: () }
 pub type GcStr = GcPtr<StrData>;
